@@ -192,6 +192,9 @@ enum Mutation {
     InsertHead(u16, u8),
     /// wrap in deep nesting
     Nest(u8, u32),
+    /// put a chain of n arrays/maps with huge declared lengths in front of the k-th item (each level of a decoder
+    /// that buffers by declared length reserves again)
+    HugeChain(u16, u8, u8),
     /// overwrite two/four bytes at a position with a length-like value
     LenField(u16, u8),
     /// rewrite the k-th CBOR integer head to a boundary value (2^63-1, 2^63, 2^64-1, -2^63-1, -2^64)
@@ -265,6 +268,20 @@ fn apply(m: &Mutation, mut b: Vec<u8>, json_like: bool) -> Vec<u8> {
             b.splice(i..i, head);
             b
         }
+        Mutation::HugeChain(k, which, n) => {
+            let heads = cbor_heads(&b);
+            let off = if heads.is_empty() { 0 } else { heads[idx(*k, heads.len())].0 };
+            let major = [4u8, 5, 4, 2][*which as usize % 4];
+            let mut head = vec![(major << 5) | 27];
+            head.extend_from_slice(&HUGE[(*which as usize / 4) % HUGE.len()].to_be_bytes());
+            if major == 5 {
+                // a map level needs a key before the nested value
+                head.push(0x01);
+            }
+            let chain = head.repeat(2 + *n as usize % 63);
+            b.splice(off..off, chain);
+            b
+        }
         Mutation::Nest(kind, depth) => {
             let d = *depth as usize;
             if json_like {
@@ -327,6 +344,7 @@ fn mutation() -> impl Strategy<Value = Mutation> {
         4 => (any::<u16>(), any::<u8>()).prop_map(|(k, w)| Mutation::CborHuge(k, w)),
         2 => (any::<u16>(), any::<u8>()).prop_map(|(k, w)| Mutation::InsertHead(k, w)),
         1 => (any::<u8>(), prop_oneof![Just(10u32), Just(127), Just(129), Just(300), Just(5_000), Just(100_000)]).prop_map(|(k, d)| Mutation::Nest(k, d)),
+        2 => (any::<u16>(), any::<u8>(), any::<u8>()).prop_map(|(k, w, n)| Mutation::HugeChain(k, w, n)),
         2 => (any::<u16>(), any::<u8>()).prop_map(|(p, w)| Mutation::LenField(p, w)),
         2 => (any::<u16>(), any::<u8>()).prop_map(|(p, w)| Mutation::IntBoundary(p, w)),
         1 => (any::<u16>(), any::<u16>(), any::<u16>()).prop_map(|(a, b, c)| Mutation::Splice(a, b, c)),
@@ -452,6 +470,7 @@ fn case_strategy() -> impl Strategy<Value = Case> {
                 Mutation::CborHuge(..) => "huge-length",
                 Mutation::InsertHead(..) => "inserted-huge-head",
                 Mutation::Nest(..) => "deep-nesting",
+                Mutation::HugeChain(..) => "nested-huge-lengths",
                 Mutation::LenField(..) => "length-field",
                 Mutation::IntBoundary(..) => "integer-boundary",
                 Mutation::Splice(..) => "splice",
@@ -481,6 +500,10 @@ fn fixed_cases() -> Vec<Case> {
     add(0, "a1 01 9b 00 00 01 00 00 00 00 00", "fixed:D7-huge-array");
     add(4, "a3 01 81 68 46 49 44 4f 5f 32 5f 30 03 50 00 00 00 00 00 00 00 00 00 00 00 00 00 00 00 00 09 9a 10 00 00 00", "fixed:D8-truncated-list");
     add(4, "a3 01 81 68 46 49 44 4f 5f 32 5f 30 03 50 00 00 00 00 00 00 00 00 00 00 00 00 00 00 00 00 09 9b ff ff ff ff ff ff ff ff", "fixed:D8-truncated-list");
+    // a list element that nests arrays with huge declared lengths (an element buffer that reserves by declared length does so per level)
+    for n in [9usize, 60, 200] {
+        add(4, &format!("a3 01 81 68 46 49 44 4f 5f 32 5f 30 03 50 {} 09 81 {}", "00".repeat(16), "9b 00 00 01 00 00 00 00 00".repeat(n)), "fixed:D8-nested-declared-lengths");
+    }
     add(13, "00 01 00 00 00 00", "fixed:D9-short-frame");
     add(13, "00 02 05 00 00 00 41", "fixed:D9-p1");
     add(13, "00 01 00 00 00 ff ff 00", "fixed:D9-declared-length");
@@ -572,7 +595,7 @@ fn minimise(case: &Case, msg: &str) -> Case {
             budget -= 1;
             let c = Case { decoder: case.decoder, input_hex: hex(&cand), origin: case.origin.clone() };
             if let Some(m) = fails(&c) {
-                if signature(&c, &m) == sig {
+                if signature(&c, &m) == sig && !m.starts_with(hostile::STALL) {
                     best = cand;
                     n = n.saturating_sub(1).max(2);
                     reduced = true;
@@ -628,18 +651,27 @@ pub fn run(ctx: &mut Ctx) {
     ctx.note("worker_deaths", json!(out.deaths.len()));
     // one violation per signature
     let mut seen = std::collections::HashSet::new();
+    let mut unconfirmed = 0u64;
     for (case, msg) in failures {
+        if seen.contains(&signature(&case, &msg)) || seen.len() >= 6 {
+            continue;
+        }
+        // confirm in a fresh process of its own: a worker that was killed from outside, or a measurement disturbed
+        // by other load, does not reproduce and is not a verdict about the library
+        let Some(msg) = fails(&case) else {
+            unconfirmed += 1;
+            continue;
+        };
+        hostile::exit_if_stalled("C15", &msg);
         let sig = signature(&case, &msg);
         if !seen.insert(sig.clone()) {
             continue;
         }
-        if seen.len() > 6 {
-            continue;
-        }
         let min = minimise(&case, &msg);
-        let final_case = if min.input_hex == case.input_hex || fails(&min).is_some() { min } else { case };
+        let final_case = if min.input_hex == case.input_hex || fails(&min).is_some_and(|m| !m.starts_with(hostile::STALL)) { min } else { case };
         ctx.violation(&format!("decoders-{}", seen.len()), json!(final_case), &format!("{}: {msg}", DECODERS[final_case.decoder % DECODERS.len()]));
     }
+    ctx.note("failures_not_reproduced_in_isolation", json!(unconfirmed));
     if let Some(why) = out.inconclusive {
         if ctx.violations.is_empty() {
             eprintln!("C15 inconclusive: {why}");
@@ -652,6 +684,9 @@ pub fn replay(_ctx: &mut Ctx, _stage: &str, case: &Value) -> Result<(), String> 
     let c: Case = serde_json::from_value(case.clone()).map_err(|e| format!("bad case: {e}"))?;
     match fails(&c) {
         None => Ok(()),
-        Some(m) => Err(format!("{}: {m}", DECODERS[c.decoder % DECODERS.len()])),
+        Some(m) => {
+            hostile::exit_if_stalled("C15", &m);
+            Err(format!("{}: {m}", DECODERS[c.decoder % DECODERS.len()]))
+        }
     }
 }
